@@ -15,6 +15,7 @@ DEMO=$(python3 -c "import json;print(json.load(open('$OUT/meta.json'))['demo_cmd
 TESTS=$(python3 -c "import json;print(json.load(open('$OUT/meta.json'))['existing_tests_cmd'])")
 SKIP=$(echo "$DEMO" | grep -o '\-run [^ ]*' | head -1 | awk '{print $2}' | tr -d "'\"")
 [ -n "$SKIP" ] && TESTS=$(echo "$TESTS" | sed "s/go test /go test -skip '$SKIP' /")
+git -C "$WT" checkout -- . ; git -C "$WT" apply "$OUT/patch.diff" || { echo "patch does not apply on clean tree"; exit 2; }
 echo "== demo with patch (expect FAIL)"; (eval "$DEMO") > "$DST/demo_with.log" 2>&1; W=$?; tail -3 "$DST/demo_with.log"
 echo "== existing tests with patch (expect PASS)"; (eval "$TESTS") > "$DST/tests_with.log" 2>&1; T=$?; tail -3 "$DST/tests_with.log"
 git -C "$WT" apply -R "$OUT/patch.diff" || { echo "cannot reverse patch"; exit 2; }
